@@ -166,14 +166,14 @@ C06S = FMT + ROUND
 
 CHECKS["C06"] = {
     "title": "opaque U-values follow EN ISO 6946, 13370 and 13789",
-    "outside": ["thorough tier only: slab kernel, sum(Ae*Ue) bookkeeping, basement-wall dispatch (10-27 min each); the basement-wall kernel and the d_t/psi harness (u_gnd_wall_kernel, u_gnd_dt_psi) gave no verdict in 45 min and are not registered; the slab-on-ground dispatch through Wall::u_value (u_ground_slab) did not finish in 45 min and is not registered: that the slab kernel receives the right d_t, B' and psi is NOT decided",
+    "outside": ["thorough tier only: sum(Ae*Ue) bookkeeping and basement-wall dispatch (17-27 min each); the three EN ISO 13370 kernel harnesses (u_gnd_slab_kernel, u_gnd_wall_kernel, u_gnd_dt_psi: grid values, ln uninterpreted) gave no verdict in 45 min each and are not registered: the ground-contact FORMULAS themselves are not decided, only which kernel is called with which arguments (u_ground_top, u_ground_missing quick; u_ground_wall thorough); the slab-on-ground dispatch through Wall::u_value (u_ground_slab) did not finish in 45 min and is not registered: that the slab kernel receives the right d_t, B' and psi is NOT decided",
                 "numeric value of ln (uninterpreted)", "tolerance statements for arbitrary reals: the mirror oracle pins formula, constants, branch structure and operand order, not conditioning",
                 "stacks deeper than 3 layers", "unconditioned spaces with more than 2 bounding exterior elements", "U of partitions between equally conditioned spaces with a neighbour (the statement does not define it): only 'has a value' is asserted"],
     "harnesses": [
         {"name": "c06::u_resistance", "bound": "0..3 layers, each detailed (lambda in {0.035,0.4,1.0,2.3} or <= 0), resistance-only (R in {k/4, k<=15}) or with a missing material; thickness in {k/16, k<=15}", "kani_args": NOOVF, "cbmc_args": FS, "stubs": FMT, "functions": ["WallCons::resistance", "ConsDb::get_material"]},
         {"name": "c06::u_exterior_kernel", "bound": "tilt in {0,60,90,120,180,300}, R in {k/8, k<=63} or None", "kani_args": NOOVF, "cbmc_args": FS, "stubs": C06S, "functions": ["Wall::u_value_exterior", "Tilt::from", "fround2"]},
         {"name": "c06::u_interior_kernel", "bound": "Ai in {(k+1)/2}, Rf in {k/4}, UA in {k/2}, q in {2k}, k<=15", "kani_args": NOOVF, "cbmc_args": FS, "stubs": C06S, "functions": ["Wall::u_value_interior_cond_uncond"]},
-        {"name": "c06::u_gnd_slab_kernel", "tier": "thorough", "timeout_thorough": 2700, "bound": "z in {k/2,k<=7}, d_t in {(k+1)/4}, B' in {(k+1)/2}, k<=15, psi in {-k/8,k<=7}", "kani_args": NOOVF, "cbmc_args": FS, "stubs": C06S + LN, "functions": ["Wall::u_value_gnd_slab"]},
+        {"name": "c06::u_gnd_slab_kernel", "tier": "off", "bound": "z in {k/2,k<=7}, d_t in {(k+1)/4}, B' in {(k+1)/2}, k<=15, psi in {-k/8,k<=7}", "kani_args": NOOVF, "cbmc_args": FS, "stubs": C06S + LN, "functions": ["Wall::u_value_gnd_slab"]},
         {"name": "c06::u_gnd_wall_kernel", "tier": "off", "bound": "z in {k/2,k<=7}, U_w, d_t in {(k+1)/4,k<=15}, h in {(k+1)/2,k<=7}", "kani_args": NOOVF, "cbmc_args": FS, "stubs": C06S + LN, "functions": ["Wall::u_value_gnd_wall"]},
         {"name": "c06::u_gnd_dt_psi", "tier": "off", "bound": "1 ground slab of side 1..4 (+2 decoy floors), slab resistance in {k/4,k<=15}, construction present/absent, Rn in {k/2,k<=7}, D in {k/4,k<=7}, d_t in {(k+1)/4}", "kani_args": NOOVF, "cbmc_args": FS, "stubs": C06S + LN, "functions": ["Space::slab_d_t", "Space::slab_psi_gnd_ext"]},
         {"name": "c06::dispatch::u_dispatch_air", "bound": "concrete construction (R=1.75); symbolic: 4 boundary kinds x tilt {0,90,180} x construction/material present x lambda > 0", "kani_args": NOOVF, "cbmc_args": FS2K, "stubs": C06S, "functions": ["Wall::u_value", "WallCons::resistance", "Wall::u_value_exterior"]},
